@@ -28,6 +28,8 @@ SIDECARS = {
     'tbrmatchedmarkets': 'mmverif.contracts.tbrmatchedmarkets_spec',
     'tbrmmdesignparameters': 'mmverif.contracts.tbrmmdesignparameters_spec',
     'tbrmmdiagnostics': 'mmverif.contracts.clients_spec',
+    'tbrmmscore': 'mmverif.contracts.clients_spec',
+    'tbrmmdesign': 'mmverif.contracts.clients_spec',
 }
 
 CACHE_DIR = os.path.join(common.VERIF, '.cache', 'obl')
@@ -138,7 +140,10 @@ def prove(targets, props=None, timeout_ms=10000, use_cvc5='fallback'):
   t0 = time.time()
   for modname, quals, with_lemmas in targets:
     side = load_sidecar(modname)
-    quals = quals if quals is not None else side.FUNCTIONS
+    if quals is None:
+      quals = {'tbrmmscore': getattr(side, 'SCORE_FUNCTIONS', None),
+               'tbrmmdesign': getattr(side, 'DESIGN_FUNCTIONS', None)}.get(
+                   modname) or side.FUNCTIONS
     for q in quals:
       try:
         res.units.append(verify_cached(modname, q))
